@@ -17,4 +17,22 @@ PROPS = {
         level_note='Model regenerated from the Python by tools/translate on every run and executed bit-exactly against the real functions; '
                    'theorems are over exact reals (binary64 rounding not modelled; the selection law itself is order-theoretic and holds for any NaN-free total order).',
     ),
+    'C07': dict(
+        own_files=['Lemmas/LC07.v', 'Props/C07.v'],
+        corr=[dict(script='corr_slurry_state.py', n=60, n_thorough=600),
+              dict(script='corr_slurry.py', n=25, n_thorough=300, args=['--parts', 'regen,getdx,curves,point,scalars'])],
+        search='C07.py', budget_quick=120, budget_thorough=3000, budget_broken=3000,
+        partial=['C07_no_stale assumes [all_valid]: the two grading ratios are non-zero and are read back exactly from a generated '
+                 'grading (ratio recovery, property C12 of create_fracs over R) at every abstract state of the history; that premise is '
+                 'searched numerically (tools/search/C07.py, C12.py), not proved'],
+        level_text='Proof (refinement, induction over the operation list): in the executable state-machine model of SlurryObj.Slurry '
+                   '(parameters, both dirty flags, cached grading and curves; 15 operations) every read of every reachable state returns '
+                   'exactly what the abstract state (current parameters + grading ratios) determines, i.e. what a freshly built object '
+                   'returns, and histories with the same final abstract state are indistinguishable (C07_no_stale, C07_step, C07_init, '
+                   'C07_no_trace). Unbounded in history length. The ratio-recovery premise is an assumption (partial).',
+        level_note='The state machine is hand-written (coq/Models/SlurryState.v over the hand models Fracs/Graded/SlurryCalc and the generated '
+                   'numeric model) and is tied to the code by running operation sequences on a real Slurry and on the extracted model, '
+                   'comparing both dirty flags after every operation and every value read, bit for bit. A setter that stops raising a flag '
+                   'makes the flags disagree; the search then compares the real object with a freshly built one.',
+    ),
 }
